@@ -19,7 +19,8 @@ mido = bootstrap()
 import mido.midifiles.midifiles as mfmod  # noqa: E402
 from mido import MidiFile, MidiTrack, MetaMessage, Message  # noqa: E402
 
-OBS = ('iter', 'length', 'merged', 'merged_mutate', 'play', 'play_abandon', 'save', 'save_fault')
+OBS = ('iter', 'length', 'merged', 'merged_mutate', 'play', 'play_abandon', 'save', 'save_fault', 'save_named',
+       'save_noargs')
 EDITS = ('add_track', 'tracks_append', 'tracks_insert', 'tracks_pop', 'tracks_set', 'tracks_replace',
          'track_append', 'track_insert', 'track_extend', 'track_pop', 'track_sort', 'track_set',
          'msg_time', 'msg_note', 'tempo_set', 'track_name', 'set_type', 'set_tpb', 'track_slice_del', 'track_iadd',
@@ -119,6 +120,7 @@ class History(BaseEngine):
             if rng.random() < p_obs:
                 o = weighted(rng, (('iter', 3), ('length', 3), ('merged', 2), ('merged_mutate', 1), ('play', 1.5),
                                    ('play_abandon', 1), ('play_start', 1), ('iter_start', 0.7), ('resume', 1.5),
+                                   ('save_named', 0.7), ('save_noargs', 0.5),
                                    ('save', 1.5), ('save_fault', 0.7)))
                 ops.append(['obs', o, rng.randrange(6)])
             else:
@@ -228,6 +230,18 @@ class History(BaseEngine):
                         gen.close()
                         break
                 return ('ok', out, repr(clock.t), [repr(d) for d in clock.slept])
+            if kind in ('save_named', 'save_noargs'):
+                # saving by name goes through the module's open(); saving without any argument must be refused
+                disk = simdisk.SimDisk()
+                mfmod.__dict__['open'] = disk.open
+                try:
+                    if kind == 'save_named':
+                        mf.save(filename=f'song{arg}.mid')
+                    else:
+                        mf.save()
+                finally:
+                    mfmod.__dict__.pop('open', None)
+                return ('ok', sorted((n, bytes(b).hex()) for n, b in disk.files.items()))
             if kind in ('save', 'save_fault'):
                 disk = simdisk.SimDisk()
                 fault = {'fail_write_at': (arg, arg % 2, simdisk.ENOSPC)} if kind == 'save_fault' else None
@@ -394,7 +408,7 @@ class History(BaseEngine):
             if model is not None:
                 model['type'] = small
         elif e == 'set_tpb':
-            v = (1, 96, 480, 960, 24)[val % 5]
+            v = (1, 96, 480, 960, 24, 0, -6360, 480)[(val + a) % 8]
             target.ticks_per_beat = v
             if model is not None:
                 model['tpb'] = v
@@ -548,7 +562,7 @@ class History(BaseEngine):
                 exp = [expected_events(t) for t in model['tracks']]
                 if None not in exp:
                     got_ev = [[(d, k, a2, bytes(b2)) for d, k, a2, b2 in tr] for tr in wtracks]
-                    if got_ev != exp or ft != model['type'] or div != model['tpb']:
+                    if got_ev != exp or ft != model['type'] or div != (model['tpb'] & 0xFFFF):
                         raise Violation('stale:save-vs-contents',
                                         f'save() wrote {got_ev!r} (type {ft}, division {div}); the file\'s current '
                                         f'contents are {exp!r} (type {model["type"]}, {model["tpb"]}); edits since the last '
